@@ -352,11 +352,17 @@ def _loop_common(P, st, spec, cond_fn, body_prefix=None, label=None):
             fr.locals[n] = fresh_like(P, fr.locals[n], f"{n}@L{spec.get('name', st.lineno)}", hints.get(n))
         elif n in hints and spec.get("bind_unbound", {}).get(n):
             fr.locals[n] = hints[n](P, f"{n}@L{spec.get('name', st.lineno)}")
+    # heap fields written by the loop body (declared by the contract) are havocked too
+    for (obj_, field_, hint_) in spec.get("havoc_fields", ()):
+        obj_.fields[field_] = hint_(P, f"{field_}@L{spec.get('name', st.lineno)}")
     view = LocalsView(P, fr, pre)
     if inv is not None:
         P.assume(zbool(inv(P, view, pre)))
     v0 = variant(P, view, pre) if variant is not None else None
     before = dict(fr.locals)
+    nwrites0 = len(P.ghost.get("writes", []))
+    alloc_mark0 = P.counters.get("@alloc", 0)
+    declared = {(id(o_), f_) for (o_, f_, _h) in spec.get("havoc_fields", ())}
     if cond_fn(view):
         # one generic iteration
         exited = False
@@ -371,6 +377,11 @@ def _loop_common(P, st, spec, cond_fn, body_prefix=None, label=None):
             exited = True
         if exited:
             return  # continue after the loop with the state at `break`
+        # a field of an object that existed before the loop may only be written if the contract havocs it at the loop head
+        for (o_, name_) in P.ghost.get("writes", [])[nwrites0:]:
+            local_ = o_.ident is not None and z3.is_int_value(o_.ident) and o_.ident.as_long() < -alloc_mark0
+            if not local_ and (id(o_), name_) not in declared and name_ not in spec.get("may_write", ()):
+                raise Unsupported(f"loop {label} writes field {name_} of an object that outlives the iteration; the contract must declare it (havoc_fields / may_write)")
         view2 = LocalsView(P, fr, pre)
         if spec.get("post_body"):
             spec["post_body"](P, before, view2)
